@@ -152,6 +152,28 @@ func makeUniquifier() string {
 	return fmt.Sprintf("%04x%06x", uint16(os.Getpid()), trimmedTime)
 }
 
+// nextUniquifier returns a uniquifier for the attempt which follows the
+// one identified by old.
+//
+// makeUniquifier has a resolution of one second, so a job which is reset
+// within the same second in which its previous attempt was started (an
+// immediate automatic retry, for example) would otherwise get the same
+// uniquifier again.  The new attempt would then reuse the directory and the
+// journal name of the failed one, and a process left over from the failed
+// attempt could no longer be told apart from the retry.  The time part of
+// successive uniquifiers from one process is therefore made strictly
+// increasing.
+func nextUniquifier(old string) string {
+	u := makeUniquifier()
+	if len(old) == len(u) && old[:4] == u[:4] && u[4:] <= old[4:] {
+		var t uint32
+		if _, err := fmt.Sscanf(old[4:], "%06x", &t); err == nil {
+			return fmt.Sprintf("%s%06x", old[:4], (t+1)&((^uint32(0))>>8))
+		}
+	}
+	return u
+}
+
 //=============================================================================
 // Metadata
 //=============================================================================
@@ -954,7 +976,7 @@ func (self *Metadata) uncheckedReset() error {
 	if self.uniquifier == "" {
 		return self.mkdirs()
 	} else {
-		self.uniquifier = ""
+		self.uniquifier = nextUniquifier(self.uniquifier)
 		return self.uniquify()
 	}
 }
